@@ -770,7 +770,12 @@ impl Server {
             let response = if let Some(sync_resp) = sync_response {
                 sync_resp
             } else {
-                self.process_frame(frame, id)?
+                // A command that cannot be carried out is answered with an error reply and the
+                // connection stays usable; only I/O failures close a connection
+                match self.process_frame(frame, id) {
+                    Ok(resp) => resp,
+                    Err(e) => Self::error_reply(&e),
+                }
             };
             responses.push(response);
         }
@@ -1136,12 +1141,26 @@ impl Server {
             match self.process_command_parts(&cmd_parts, db_index) {
                 Ok(response) => results.push(response),
                 Err(e) => {
-                    results.push(RespFrame::error(e.to_string()));
+                    results.push(Self::error_reply(&e));
                 }
             }
         }
         
         Ok(RespFrame::Array(Some(results)))
+    }
+    
+    /// Error reply for a command that failed with `Err`: one line, with the Redis error class
+    fn error_reply(e: &FerrousError) -> RespFrame {
+        use crate::error::{CommandError, StorageError};
+        let text = match e {
+            FerrousError::Storage(StorageError::WrongType) | FerrousError::Command(CommandError::WrongType) => {
+                "WRONGTYPE Operation against a key holding the wrong kind of value".to_string()
+            }
+            FerrousError::Command(_) | FerrousError::Script(_) | FerrousError::LuaError(_) => e.to_string(),
+            other => format!("ERR {}", other),
+        };
+        let line: String = text.chars().map(|c| if c == '\r' || c == '\n' { ' ' } else { c }).collect();
+        RespFrame::error(line)
     }
     
     /// Helper method to process a Vec<RespFrame> in a transaction
